@@ -153,6 +153,13 @@ pub trait PmCont: Zeroize + NewBytes + Lockable<Self> + Clone + Default + 'stati
     fn resize_raw(a: &mut Self, n: usize, v: u8) -> bool;
     fn from_slice_locked(src: &[u8]) -> Result<Locked<Self>, dryoc::Error>;
     fn from_slice_ro_locked(src: &[u8]) -> Result<LockedRO<Self>, dryoc::Error>;
+    /// `StackByteArray<N>::mlock()` / `::mprotect_readonly()` (fixed containers only)
+    fn stack_mlock(_content: &[u8]) -> Option<Result<Locked<Self>, std::io::Error>> {
+        None
+    }
+    fn stack_ro(_content: &[u8]) -> Option<Result<UnlockedRO<Self>, std::io::Error>> {
+        None
+    }
 }
 
 impl PmCont for HeapBytes {
@@ -227,6 +234,14 @@ impl<const N: usize> PmCont for HeapByteArray<N> {
     fn from_slice_ro_locked(src: &[u8]) -> Result<LockedRO<Self>, dryoc::Error> {
         HeapByteArray::<N>::from_slice_into_readonly_locked(src)
     }
+    fn stack_mlock(content: &[u8]) -> Option<Result<Locked<Self>, std::io::Error>> {
+        let s = StackByteArray::<N>::try_from(content).ok()?;
+        Some(s.mlock())
+    }
+    fn stack_ro(content: &[u8]) -> Option<Result<UnlockedRO<Self>, std::io::Error>> {
+        let s = StackByteArray::<N>::try_from(content).ok()?;
+        Some(s.mprotect_readonly())
+    }
 }
 
 type LockedNA<A> = Protected<A, tr::NoAccess, tr::Locked>;
@@ -299,6 +314,8 @@ pub enum Ctor {
     FromSliceRoLocked,
     RawMlock,
     Raw,
+    StackMlock,
+    StackRo,
 }
 
 #[derive(Clone, Copy, Debug, PartialEq, Eq, Hash, serde::Serialize, serde::Deserialize)]
@@ -378,6 +395,10 @@ impl<A: PmCont> World<A> {
             for c in [Ctor::NewLocked, Ctor::NewRoLocked, Ctor::GenLocked, Ctor::GenRoLocked, Ctor::FromSliceLocked, Ctor::FromSliceRoLocked, Ctor::RawMlock] {
                 v.push(Op::Create(c));
             }
+            if A::fixed().is_some() {
+                v.push(Op::Create(Ctor::StackMlock));
+                v.push(Op::Create(Ctor::StackRo));
+            }
             if with_raw {
                 v.push(Op::Create(Ctor::Raw));
             }
@@ -450,6 +471,8 @@ impl<A: PmCont> World<A> {
                         Ctor::FromSliceRoLocked => Hd::LRO(A::from_slice_ro_locked(&content).map_err(|e| format!("{:?}", e))?),
                         Ctor::RawMlock => Hd::LRW(A::build(&content).mlock().map_err(|e| e.to_string())?),
                         Ctor::Raw => Hd::Raw(A::build(&content)),
+                        Ctor::StackMlock => Hd::LRW(A::stack_mlock(&content).ok_or("not a fixed container")?.map_err(|e| e.to_string())?),
+                        Ctor::StackRo => Hd::URO(A::stack_ro(&content).ok_or("not a fixed container")?.map_err(|e| e.to_string())?),
                     })
                 }));
                 match r {
@@ -1385,10 +1408,20 @@ pub fn run_c15() -> i32 {
     let mut ctx = Ctx::new("C15", "model_checking");
     let depth = ctx.tier.pick(5usize, 6);
     let units = units_for(&[1, 16, 64, PAGE - 1, PAGE, PAGE + 1, 3 * PAGE], &[1, 32, 64, 4096, 4097]);
-    ctx.rule = format!("history-replay exploration with the allocator release observer (hook H2): every history of length <= {} over constructors (incl. the raw heap container), fill/write, resize up (x2, +1 page) and down (0, 1, len/2, len-1), clone, lock/unlock/protect transitions and drop is executed on fresh real objects; at every Release event the whole released allocation (spare capacity included) is read through process_vm_readv immediately before free() and must be all zero; alloc/release counts must balance after the last drop; non-trivial = every executed history", depth);
+    ctx.rule = format!("history-replay exploration with the allocator release observer (hook H2): every history of length <= {} over constructors (incl. the raw heap container), fill/write, resize up (x2, +1 page) and down (0, 1, len/2, len-1), clone, lock/unlock/protect transitions and drop is executed on fresh real objects (7 HeapBytes lengths up to 3 pages, 5 fixed arrays; plus large regions 64 KiB..1 MiB+1 at depth 3/4); at every Release event the whole released allocation (spare capacity included) is read through process_vm_readv immediately before free() and must be all zero; alloc/release counts must balance after the last drop; non-trivial = every executed history", depth);
     ctx.assume("only the page-aligned allocator is observed (the property's scope); stack and Vec<u8> containers are outside the statement");
     let res = spawn_units("release", &units, depth, 0);
     absorb_units(&mut ctx, "C15", res, &units);
+    // large regions: size thresholds in the allocator / libc (mmap threshold 128 KiB, huge sizes)
+    let big = units_for(&[64 * 1024, 128 * 1024 - 1, 128 * 1024, 128 * 1024 + 1, 1024 * 1024 + 1], &[]);
+    let bdepth = ctx.tier.pick(3usize, 4);
+    let res = spawn_units("release", &big, bdepth, 0);
+    let notes_units = ctx.notes.remove("units");
+    absorb_units(&mut ctx, "C15", res, &big);
+    if let Some(u) = notes_units {
+        ctx.note("units_small", u);
+    }
+    ctx.note("large_region_depth", json!(bdepth));
     ctx.note("depth", json!(depth));
     ctx.require_outcome("Resize:ok");
     ctx.require_outcome("Drop:ok");
